@@ -323,10 +323,21 @@ def read_file(filename, mode = 'rb'):
         return f.read()
 
 
-def write_file(filename: FilePath, data: bytes, mode: str = 'wb') -> int:
-    """Write or append to a file with home directory expansion"""
+def write_file(filename: FilePath, data: bytes, mode: str = 'wb',
+               perms: int = 0o666) -> int:
+    """Write or append to a file with home directory expansion
 
-    with open_file(filename, mode) as f:
+       If the file doesn't exist yet, it is created with the requested
+       permissions, further restricted by the process's umask.
+
+    """
+
+    def _opener(path: str, flags: int) -> int:
+        """Open a file, creating it with the requested permissions"""
+
+        return os.open(path, flags, perms)
+
+    with open(Path(filename).expanduser(), mode, opener=_opener) as f:
         return f.write(data)
 
 
